@@ -156,7 +156,7 @@ def cases(draw: Any, prop: str, tier: str) -> dict:
         local_avail = list(available)
         for _ in range(d.int(0, max_steps)):
             kind = d.weighted([("sleep", 18), ("cp", 14), ("publish", 26), ("wait", wait_p if local_avail else 0),
-                               ("lookup", 10), ("td", 8), ("svc", 5), ("burst", 6 if prop == "C06" else 1)])
+                               ("lookup", 10), ("td", 8), ("svc", 5), ("burst", 6 if prop == "C06" else 1), ("subctx", 7)])
             if kind == "sleep":
                 steps.append({"op": "sleep", "d": d.int(1, 3)})
             elif kind == "cp":
@@ -183,6 +183,8 @@ def cases(draw: Any, prop: str, tier: str) -> dict:
                 st_ = {"op": "publish", "how": "factory" if how == "factory" else "static", "types": ts, "name": name, "eff": eff}
                 if how == "factory":
                     st_["async"] = d.bool()
+                    if st_["async"] and prop == "C07" and d.pct(50):
+                        st_["fdelay"] = d.int(1, 4)  # generating takes time (only where wait times are not asserted)
                 steps.append(st_)
                 for t in ts:
                     local_avail.append({"t": t, "name": eff})
@@ -202,6 +204,8 @@ def cases(draw: Any, prop: str, tier: str) -> dict:
                 steps.append({"op": "lookup", "t": t, "name": name, "api": d.pick(["optional", "nowait", "nowait_optional"])})
             elif kind == "td":
                 steps.append({"op": "td"})
+            elif kind == "subctx":
+                steps.append({"op": "subctx", "n": d.int(0, 2)})  # a unit of work in its own sub-context
             elif kind == "svc":
                 sv = {"op": "svc"}
                 if d.pct(40):
@@ -249,7 +253,7 @@ def cases(draw: Any, prop: str, tier: str) -> dict:
                 nodes[0]["start"] = []
                 case["lin"].append([0, "start"])  # the root's start() is last in every linearisation
             script = nodes[i][ph]
-            script.insert(d.int(0, len(script)), {"op": "stall", "how": d.pick(["sleep", "never"])})
+            script.insert(d.int(0, len(script)), {"op": "stall", "how": d.pick(["sleep", "never", "anext_default", "athrow"])})
             case["stall_timeout"] = d.int(1, 12)
     return case
 
@@ -335,7 +339,9 @@ class Run:
                     made: list[int] = []
 
                     if st_.get("async"):
-                        async def fac(types: list = types, made: list = made, tag: Any = (path, phase, si)) -> Any:
+                        async def fac(types: list = types, made: list = made, tag: Any = (path, phase, si), delay: int = st_.get("fdelay", 0)) -> Any:
+                            if delay:
+                                await anyio.sleep(delay)
                             o = run.new_obj(types[0], ("factory", tag))
                             made.append(id(o))
                             return o
@@ -347,6 +353,11 @@ class Run:
 
                     add_resource_factory(fac, st_["name"], types=types)
                     self.ev("publish", path, types=st_["types"], name=st_["eff"], how="factory", made=made)
+            elif op == "subctx":
+                from asphalt.core import Context as _Ctx
+
+                async with _Ctx():
+                    await checkpoints(st_["n"])
             elif op == "burst":
                 for k in range(st_["n"]):
                     add_resource(object(), f"bst{st_['base'] + k}", types=[RBurst])
@@ -420,6 +431,27 @@ class Run:
                 self.ev("stall", path)
                 if st_["how"] == "sleep":
                     await anyio.sleep(10**5)
+                elif st_["how"] == "anext_default":
+                    async def agen() -> Any:
+                        await anyio.sleep(10**5)
+                        yield 1
+
+                    await anext(agen(), None)  # the await chain contains an anext_awaitable
+                elif st_["how"] == "athrow":
+                    from contextlib import asynccontextmanager
+
+                    @asynccontextmanager
+                    async def hanging_cleanup() -> Any:
+                        try:
+                            yield
+                        finally:
+                            await anyio.sleep(10**5)
+
+                    try:
+                        async with hanging_cleanup():  # leaving by an exception: agen.athrow() hangs in its cleanup
+                            raise KeyError("leave")
+                    except KeyError:
+                        pass
                 else:
                     await get_resource(RBurst, "never_published")
             else:
